@@ -513,6 +513,14 @@ def _(e, st, raw, n, a, m):
     raise Unsupported('Option::map with ' + str(f)[:60])
 
 
+@summary(r'^Option::take$|^std::mem::take$|^core::mem::take$')
+def _(e, st, raw, n, a, m):
+    cur = e.rd(st, a[0])
+    if n.endswith('mem::take') and not (isinstance(cur, tuple) and cur and cur[0] in ('adt', 'sadt') and 'Option' in str(cur[1])): raise Unsupported('mem::take of ' + str(cur)[:40])
+    e.wr(st, a[0], NONE)
+    return [(T, cur)]
+
+
 @summary(r'^Option::is_some$')
 def _(e, st, raw, n, a, m):
     v = e.rd(st, a[0]); return [(T, (v[2] == 1) if v[0] == 'sadt' else v[2] == 'Some')]
